@@ -391,4 +391,5 @@ def keep(i):
 
 
 if __name__ == "__main__":
-    main()
+    import common
+    common.run(main, PID)
